@@ -261,7 +261,7 @@ def run_property(modname, tier, seed, replay=None):
 
     # ---- regression tier: committed minimal reproductions, replayed first (bypasses Hypothesis)
     rdir = os.path.join(VERIF, "regress", pid)
-    if os.path.isdir(rdir):
+    if os.path.isdir(rdir) and not os.environ.get("VF_NOREGRESS"):
         for fn in sorted(os.listdir(rdir)):
             if not fn.endswith(".json"):
                 continue
